@@ -172,6 +172,73 @@ def gen_prims(ck, r, budget):
     return cases
 
 
+# ------------------------------------------------------------------------------------------- generators: integer-width boundaries
+# Every length-consuming routine gets lengths on both sides of each width / table-size boundary the C code
+# crosses (unsigned char 2^8, psSize_t 2^16, MAX_OID_BYTES - 2 = 30 and the same values + 256, + 512 as seen
+# through a truncated octet), with that many octets ACTUALLY PRESENT.
+W8 = sorted(set(list(range(0, 36)) + list(range(250, 292)) + list(range(508, 546)) + [767, 768, 769, 798, 799, 1023, 1024, 1054, 1055]))
+W16 = [65534, 65535, 65536, 65537, 65536 + 29, 65536 + 30, 65536 + 31, 65536 + 255, 65536 + 256]
+
+def oid_octets(n, bad_last=False):
+    b = (b"\x2a\x86\x48" + b"\x03" * n)[:n]
+    if n and bad_last: b = b[:-1] + b"\x83"
+    return b
+
+def gen_widths(ck, r):
+    cases = []
+    def add(c, kind):
+        cases.append(c); ck.count("width:" + kind)
+    # asnCopyOid directly: derlen 0..600 and around 2^16, content present (and one octet short), guarded 32-byte output
+    for n in list(range(0, 601)) + W16:
+        add("oidcopy %d %s" % (n, hx(oid_octets(n))), "oidcopy")
+        if n in W8 or n in W16:
+            add("oidcopy %d %s" % (n, hx(oid_octets(n, True))), "oidcopy-badlast")
+            if n: add("oidcopy %d %s" % (n, hx(oid_octets(n - 1))), "oidcopy-short")
+    # OBJECT IDENTIFIER / AlgorithmIdentifier / INTEGER / ENUMERATED / generic TLV headers with such content lengths
+    for n in W8 + W16:
+        ob = oid_octets(n)
+        for params in (b"", b"\x05\x00"):
+            o = der.tlv(6, ob)
+            add("oid 1 %s" % hx(o + params), "oid"); add("oid 0 %s" % hx(o + params), "oid")
+            if n < 60000:
+                add("algid %s" % hx(der.seq(o + params)), "algid")
+        if n < 60000 or n in (65535, 65536, 65536 + 30):
+            body = bytes((i * 11 + 3) & 0x7F for i in range(n))
+            for op, tag in (("int", 2), ("enum", 10)):
+                add("%s %s" % (op, hx(der.tlv(tag, body))), op)
+            for tag, ops in ((0x30, ("seq32 0", "seq16")), (0x31, ("set32 0", "set16"))):
+                for o in ops:
+                    add("%s %s" % (o, hx(der.tlv(tag, body))), o.split()[0])
+                    if n: add("%s %s" % (o, hx(der.tlv(tag, body)[:-1])), o.split()[0] + "-short")
+            add("len16 %s" % hx(der.enc_len(n) + body), "len16"); add("len32 0 %s" % hx(der.enc_len(n) + body), "len32")
+            add("taglen %s" % hx(der.tlv(0x30, body)), "taglen")
+    # GeneralNames: name / otherName type-id / directoryName of those lengths (a certificate holds < 2^16 octets)
+    for n in [x for x in W8 if x > 0] + [1023, 1024, 4096, 16384, 40000]:
+        host = (b"abcdefghij." * (n // 11 + 1))[:n]
+        add(gn_case(der.general_name(2, host)), "gn-name")
+        add(gn_case(der.general_name(2, host[:-1] + b"\x00") + der.general_name(1, b"x@y.z")), "gn-name-nul")
+        if n <= 2000:
+            add(gn_case(der.general_name(0, der.tlv(6, oid_octets(n)) + der.ctx(0, der.utf8("v"))) + der.general_name(2, b"a.b")), "gn-othername-oid")
+            add(gn_case(der.general_name(7, bytes(n))), "gn-ip")
+    # DN: attribute value / attribute-type OID / number of attributes around the same boundaries
+    for n in W8 + [1023, 1024, 4096, 16384, 32766, 32767, 32768, 60000]:
+        v = (b"value-" * (n // 6 + 1))[:n]
+        add("dn " + hx(der.name(der.attr("cn", v))), "dn-value")
+        add("dn " + hx(der.name(der.attr("ou", v), der.attr("ou", b"second"), der.attr("dc", v[:n // 2], 0x16))), "dn-value")
+        if n <= 2000:
+            add("dn " + hx(der.name(der.set_(der.seq(der.tlv(6, oid_octets(n)), der.utf8("x"))), der.attr("cn", "after"))), "dn-type-oid")
+            add("dn " + hx(der.name(der.set_(der.seq(der.tlv(6, b"\x55\x04" + oid_octets(n)), der.utf8("x"))))), "dn-type-oid")
+    for k in (31, 32, 33, 34, 255, 256, 257):      # DN_NUM_ATTRIBUTES_MAX = 32 attributeOrder slots; 8-bit counters
+        add("dn " + hx(der.name(*[der.attr(r.choice(["ou", "dc", "cn", "o", "c", "st", "serial", "dnq"]), "v%d" % i) for i in range(k)])), "dn-count")
+        add("dn " + hx(der.name(*[der.attr("ou", "v%d" % i) for i in range(k)])), "dn-count")
+    # base64: psSize_t input length and output capacity at 2^16
+    for n in (65532, 65533, 65534, 65535, 65536, 65537, 65540):
+        t = (b"QUJD" * (n // 4 + 1))[:n]
+        for cap in (n * 3 // 4 & 0xFFFF, 65535, 49152, 0):
+            add("b64 %d %s" % (cap, hx(t)), "b64-64k")
+    return cases
+
+
 # ------------------------------------------------------------------------------------------- generators: GeneralNames
 HOSTS = [b"a.example.com", b"www.b.org", b"x", b"*.c.net", b"MAIL.d.com", b"e-f.g", b"1.2.3.4"]
 
@@ -476,14 +543,32 @@ def gen_whole(ck, r, seeds, budget):
         step = max(1, len(cuts) // ck.budget(60, 400))
         for c in cuts[::step]:
             add(op, b[:c], extra, "truncate-at-tlv", name)
+    # length-CONSISTENT resize of every leaf of a certificate carrying every extension kind (and of a CRL, an OCSP
+    # response) to each width-boundary length: the element really has 256+k / 512+k octets and all enclosing
+    # lengths agree, so the parser reaches the code that stores it
+    for name, op, b in (("all-extensions-cert", "cert", der.cert_all_extensions()),) + tuple((n, o, x) for n, o, x, e in seeds if o in ("crl", "ocsp"))[:3]:
+        ts = der.tree(b)
+        if not ts: continue
+        ls = der.leaves(ts)
+        lens = der.WIDTH_LENS if op == "cert" else [30, 31, 255, 256, 257, 286, 287, 512, 542]
+        stride = 1 if ck.tier == "thorough" else 2
+        for li, leaf in enumerate(ls):
+            for ni, n in enumerate(lens):
+                if leaf.tag != 0x06 and (li + ni) % stride: continue       # OIDs: every length; other leaves: every other one in quick
+                add(op, der.resized(ts, leaf, n), None, "resize-leaf:%02x" % leaf.tag, name)
+        if op == "crl":            # CRLs may exceed 2^16 octets: cross the psSize_t boundary too
+            for leaf in ls[:: max(1, len(ls) // 6)]:
+                for n in (65535, 65536, 65536 + 30):
+                    add(op, der.resized(ts, leaf, n), None, "resize-leaf-64k", name)
     derseeds = [s for s in seeds if s[1] not in ("certdata", "keys")]
     pemseeds = [s for s in seeds if s[1] in ("certdata", "keys")]
     offcache = {}
     while len(cases) < budget:
         if r.random() < 0.85 or not pemseeds:
             name, op, b, extra = r.choice(derseeds)
-            if name not in offcache: offcache[name] = der.offsets(b)
-            kind, m = der.mutate(r, b, offcache[name])
+            if name not in offcache: offcache[name] = (der.offsets(b), der.tree(b))
+            rz = der.mutate_resize(r, b, offcache[name][1]) if r.random() < 0.25 else None
+            kind, m = rz if rz else der.mutate(r, b, offcache[name][0])
             if r.random() < 0.15:
                 kind2, m = der.mutate(r, m); kind += "+" + kind2
             if len(m) > 200000: continue
@@ -517,7 +602,7 @@ def corpus_cases():
                         out.append(l)
     return out
 
-MODEL_OPS = ("len32", "len16", "seq32", "seq16", "set32", "set16", "int", "enum", "oid", "algid", "taglen", "gn", "dn", "b64", "pemchk", "pemdec", "pemlist")
+MODEL_OPS = ("len32", "len16", "seq32", "seq16", "set32", "set16", "int", "enum", "oid", "oidcopy", "algid", "taglen", "gn", "dn", "b64", "pemchk", "pemdec", "pemlist")
 
 def is_model_case(c):
     return c.split(" ", 1)[0] in MODEL_OPS
@@ -587,6 +672,7 @@ def run(ck):
     mcases = [c for c in corp if is_model_case(c)]
     ncorp = len(mcases)
     mcases += gen_prims(ck, r, ck.budget(9000, 60000))
+    mcases += gen_widths(ck, ck.rng("widths"))
     mcases += gen_gn(ck, ck.rng("gn"), ck.budget(900, 12000))
     mcases += gen_dn(ck, ck.rng("dn"), ck.budget(1500, 20000))
     mcases += gen_b64(ck, ck.rng("b64"), ck.budget(700, 10000))
@@ -601,6 +687,7 @@ def run(ck):
                     "(trailing/hidden NUL, control bytes, iPAddress sizes, otherName well/ill-formed, odd tag classes, empty, bad lengths) with declared SEQUENCE length +-k, junk, following "
                     "extensions; DNs with every attribute family, string type, multi-valued SETs, missing values, lengths to 65510, ASN.1-aware mutations; base64 with padding/garbage/"
                     "capacity variations; PEM frames with label/END/NUL/CRLF/encryption-header variations; whole parsers: ASN.1-aware mutations (14 operators) of every /repo/testkeys credential. "
+                    "Integer-width boundaries: every length-consuming routine (asnCopyOid 0..600 and 2^16+k into a guarded 32-byte block, OID/INTEGER/SEQUENCE/SET headers, GeneralName and otherName type-id, DN value / attribute-type OID / attribute count, base64 length) is driven with lengths 0..35, 250..291, 508..545, 2^16-2..2^16+256 whose octets are really present; whole certificates: every leaf of a certificate carrying every parsed extension kind is resized, with all enclosing lengths re-encoded consistently, to 29..33, 126..129, 253..259, 283..289, 510..514, 540..544, 1023..1025, 4095..4097 octets (OIDs: each length), CRL leaves also to 2^16+k. "
                     "A modelled case is non-trivial when the library accepts it")
     # ---- modelled functions: model vs sanitizer build (authoritative) and vs plain build
     t1 = time.time()
